@@ -591,6 +591,14 @@ def behaviour_probe(repo, pkg, full, subpackages):
 
 
 def main():
+    try:        # a mutated implementation must not take the machine down
+        import resource
+        soft, hard = resource.getrlimit(resource.RLIMIT_AS)
+        cap = 6 << 30
+        if hard == resource.RLIM_INFINITY or cap < hard:
+            resource.setrlimit(resource.RLIMIT_AS, (cap, hard))
+    except Exception:
+        pass
     repo, mode, pkg = sys.argv[1], sys.argv[2], sys.argv[3]
     sys.path.insert(0, repo)
     subpackages = json.loads(sys.argv[4])
